@@ -20,5 +20,6 @@ CONSTANTS
   NilForGone = FALSE
   Validate = TRUE
   BumpOnRemove = TRUE
+  BumpOnEntry = TRUE
 VIEW View
 INVARIANTS NoError StructureOK
